@@ -13,7 +13,10 @@ Init == \E i \in DOMAIN Corpus : \E j \in DOMAIN Corpus[i].vars :
                doc |-> Corpus[i].doc, vars |-> Corpus[i].vars[j]]
 Next == /\ Len(c.steps) < Depth
         /\ \E rw \in Rewrites(SchemaById(c.schema), c.doc, c.vars) :
-             c' = [c EXCEPT !.doc = rw.doc, !.vars = rw.vars, !.steps = Append(@, rw.kind), !.canon = @ /\ rw.canon]
+             \* a step is meaning preserving on its own (MC_GQLRewrite); two steps can interfere (a duplicated field whose copy
+             \* then gets a variable for a literal no longer has identical arguments), so only valid members are kept
+             /\ SpecValid(SchemaById(c.schema), Reachable(rw.doc))
+             /\ c' = [c EXCEPT !.doc = rw.doc, !.vars = rw.vars, !.steps = Append(@, rw.kind), !.canon = @ /\ rw.canon]
 Spec == Init /\ [][Next]_c
 Emit == PrintT(ToJson(c))
 =============================================================================
